@@ -1163,7 +1163,7 @@ def oracle_dens(c, res):
         out.append(("exception", "mean/variance raised " + res["mean_exc"]))
     if "cdf_exc" in res:
         out.append(("exception", "cdf/value_for raised " + res["cdf_exc"]))
-    if "cdf_slope" in res:
+    if "cdf_integral" in res and "value_for_cdf" in res:     # (a cdf / value_for that raised is reported above as `exception`)
         # (the finite-difference slope of the cdf is reported but not checked: the integral identity below is exact)
         for ci, cx, x in zip(res["cdf_integral"], res["cdf"], res["points"]):
             if not close(unhex(ci), unhex(cx) - unhex(res["cdf_lo"]), 1e-6):
